@@ -1870,9 +1870,12 @@ class CParser:
             typ, mark, lparen_tok = result
             if self._peek_type() == "LBRACE":
                 # (type){...} is a compound literal, not a cast. Examples:
-                #   (int){1}      -> compound literal, handled in postfix
+                #   (int){1}      -> compound literal (a postfix expression)
                 #   (int) x       -> cast, handled below
-                self._reset(mark)
+                # The type name is not parsed a second time: re-parsing it at
+                # the postfix level doubles the work per nesting level.
+                expr = self._parse_compound_literal_rest(typ, lparen_tok)
+                return self._parse_postfix_suffixes(expr)
             else:
                 expr = self._parse_cast_expression()
                 return c_ast.Cast(typ, expr, self._tok_coord(lparen_tok))
@@ -1901,11 +1904,13 @@ class CParser:
             tok = self._advance()
             result = self._try_parse_paren_type_name()
             if result is not None:
-                typ, mark, _ = result
+                typ, mark, lparen_tok = result
                 if self._peek_type() != "LBRACE":
                     return c_ast.UnaryOp(tok.value, typ, self._tok_coord(tok))
                 # 'sizeof (T){...}': the operand is a compound literal.
-                self._reset(mark)
+                expr = self._parse_compound_literal_rest(typ, lparen_tok)
+                expr = self._parse_postfix_suffixes(expr)
+                return c_ast.UnaryOp(tok.value, expr, self._tok_coord(tok))
             expr = self._parse_unary_expression()
             return c_ast.UnaryOp(tok.value, expr, self._tok_coord(tok))
 
@@ -1927,19 +1932,29 @@ class CParser:
             # Disambiguate between casts and compound literals:
             #   (int) x   -> cast
             #   (int) {1} -> compound literal
-            if self._accept("LBRACE"):
-                init = self._parse_initializer_list()
-                self._accept("COMMA")
-                self._expect("RBRACE")
-                # A compound literal is a postfix expression like any other:
-                # '(T){1}.a', '(int[]){1, 2}[0]'.
-                expr = c_ast.CompoundLiteral(typ, init, self._tok_coord(lparen_tok))
+            if self._peek_type() == "LBRACE":
+                expr = self._parse_compound_literal_rest(typ, lparen_tok)
             else:
                 self._reset(mark)
                 expr = self._parse_primary_expression()
         else:
             expr = self._parse_primary_expression()
+        return self._parse_postfix_suffixes(expr)
 
+    def _parse_compound_literal_rest(
+        self, typ: c_ast.Typename, lparen_tok: Token
+    ) -> c_ast.Node:
+        """Parse '{' initializer_list ','? '}' after an already parsed
+        '(' type_name ')' and return the CompoundLiteral."""
+        self._expect("LBRACE")
+        init = self._parse_initializer_list()
+        self._accept("COMMA")
+        self._expect("RBRACE")
+        return c_ast.CompoundLiteral(typ, init, self._tok_coord(lparen_tok))
+
+    def _parse_postfix_suffixes(self, expr: c_ast.Node) -> c_ast.Node:
+        """Parse the chain of postfix operators that follows a primary
+        expression or a compound literal ('(T){1}.a', 'a[0](1)++')."""
         while True:
             if self._accept("LBRACKET"):
                 sub = self._parse_expression()
